@@ -147,12 +147,17 @@ class MarketRun:
         self.lines.append("CASE 0")
         for i, op in enumerate(ops):
             pre = self.state()
+            # an observer (any agent) reads the book between operations through the public getters;
+            # these reads are part of every history, whether or not the model is being compared
             if emit:
                 self.lines.append(self.state_line(pre))
-                if extras:
-                    self.lines.append("P " + b2s(m.remain_executable_orders()))
-                    for isbuy, book in ((True, m.buy_order_book), (False, m.sell_order_book)):
-                        d = book.get_price_volume()
+            if extras:
+                pred = m.remain_executable_orders()
+                depths = [(isbuy, book.get_price_volume())
+                          for isbuy, book in ((True, m.buy_order_book), (False, m.sell_order_book))]
+                if emit:
+                    self.lines.append("P " + b2s(pred))
+                    for isbuy, d in depths:
                         self.lines.append("D %s %d %s" % (b2s(isbuy), len(d), " ".join(
                             "%s:%d" % (fkey(k), v) for k, v in d.items())))
             nseen = len(self.logger.seen)
@@ -330,9 +335,13 @@ class MarketRun:
 def gen_history(rng, n_ops, profile=None):
     """one structured, mostly valid history.  All choices from `rng`."""
     profile = profile or rng.choice(["continuous", "continuous", "batch", "mixed", "marketheavy",
-                                     "deep", "expiry", "sweep", "sweep", "sweep"])
+                                     "deep", "expiry", "sweep", "sweep", "sweep", "mkt2", "long"])
     if profile == "sweep":
         return gen_sweep(rng, n_ops)
+    if profile == "long":
+        return gen_long(rng)
+    if profile == "mkt2":
+        return gen_mkt2(rng, n_ops)
     tick = rng.choice([1.0, 1.0, 0.5, 0.25, 0.1, 0.01, 10.0])
     base = rng.choice([100.0, 300.0, 50.0, 1000.0])
     cfg = {"tick": tick, "price": base, "fund0": base, "profile": profile}
@@ -402,6 +411,80 @@ def gen_history(rng, n_ops, profile=None):
     return cfg, ops
 
 
+def gen_long(rng):
+    """a long, sparse history that crosses the 100- and (sometimes) 200-step storage chunks of the
+    per-step series: per step at most a couple of orders with unbalanced buy / sell counts, a round
+    now and then, an occasional cancel or clock jump"""
+    tick = rng.choice([1.0, 0.5])
+    base = rng.choice([100.0, 300.0])
+    cfg = {"tick": tick, "price": base, "fund0": base, "profile": "long"}
+    ops = [{"op": "run", "on": True}]
+    n = 0
+    fund = base
+    n_ticks = rng.choice([103, 110, 204])
+    t = 0
+    while t < n_ticks:
+        if rng.random() < (0.5 if t < 12 or t % 100 > 95 else 0.06):
+            for _ in range(rng.randint(1, 3)):
+                buy = rng.random() < rng.choice([0.2, 0.8])
+                lvl = rng.randint(0, 3)
+                price = None if rng.random() < 0.1 else base + (lvl if rng.random() < 0.3 else -lvl - 1) * tick * (1 if buy else -1)
+                ops.append({"op": "add", "agent": rng.randint(0, 3), "buy": buy, "price": price,
+                            "vol": rng.randint(1, 3), "ttl": rng.choice([None, 2, 150])})
+                n += 1
+                if rng.random() < 0.7:
+                    ops.append({"op": "exec"})
+            if n and rng.random() < 0.2:
+                ops.append({"op": "cancel", "ref": rng.randint(0, n - 1)})
+        fund = fund * math.exp(rng.gauss(0, 0.003))
+        if rng.random() < 0.02 and t + 3 < n_ticks:
+            ops.append({"op": "jump", "k": 3, "fund": fund})
+            t += 3
+        else:
+            ops.append({"op": "tick", "fund": fund})
+            t += 1
+    return cfg, ops
+
+
+def gen_mkt2(rng, n_ops):
+    """market orders on both sides: small volumes so that resting market orders are filled partly,
+    crossing limit orders close to the base price, many cancels, the running switch now and then"""
+    tick = rng.choice([1.0, 0.5])
+    base = rng.choice([100.0, 300.0])
+    cfg = {"tick": tick, "price": base, "fund0": base, "profile": "mkt2"}
+    running = rng.random() < 0.8
+    ops = [{"op": "run", "on": running}]
+    n = 0
+    p_market = rng.choice([0.35, 0.5, 0.65])
+    limit_buy_bias = rng.choice([0.5, 0.9, 0.1, 0.95, 0.05])     # limit orders mostly on one side
+    while len(ops) < n_ops:
+        r = rng.random()
+        if r < 0.6:
+            if rng.random() < p_market:
+                buy, price = rng.random() < 0.5, None
+            else:
+                buy, price = rng.random() < limit_buy_bias, base + rng.randint(-2, 2) * tick
+            ops.append({"op": "add", "agent": rng.randint(0, 4), "buy": buy, "price": price,
+                        "vol": rng.randint(1, 6), "ttl": rng.choice([None, None, None, 1, 3])})
+            n += 1
+            if running:
+                ops.append({"op": "exec"})
+        elif r < 0.8 and n:
+            ops.append({"op": "cancel", "ref": rng.randint(max(0, n - 4), n - 1)})
+            if running and rng.random() < 0.7:
+                ops.append({"op": "exec"})
+        elif r < 0.88:
+            ops.append({"op": "tick", "fund": base})
+        elif r < 0.93:
+            running = not running
+            ops.append({"op": "run", "on": running})
+            if running:
+                ops.append({"op": "exec"})
+        else:
+            ops.append({"op": "exec"})
+    return cfg, ops
+
+
 def gen_sweep(rng, n_ops):
     """deep one-sided book in shuffled arrival order, non-best cancels, then a multi-level sweep
     (continuous: one large crossing order; batch: a crossed book cleared in one round)"""
@@ -448,6 +531,41 @@ def gen_sweep(rng, n_ops):
         ops.append(rng.choice([{"op": "tick", "fund": base}, {"op": "exec"},
                                {"op": "cancel", "ref": rng.randint(0, n - 1)}]))
     return cfg, ops
+
+
+def small_scope_market_orders(length):
+    """bounded-exhaustive: every sequence of `length` operations over a compact alphabet centred on
+    market orders (both sides, volumes 2 and 3), one-lot limit orders at one price per side, the
+    cancel of the latest order and a clock step; continuous matching.  Used by the failing-input
+    search of C01/C03 and in the thorough tier (validation of the model; not a proof)."""
+    import itertools
+    alphabet = [
+        {"op": "add", "agent": 0, "buy": False, "price": None, "vol": 3, "ttl": None},
+        {"op": "add", "agent": 1, "buy": True, "price": None, "vol": 3, "ttl": None},
+        {"op": "add", "agent": 0, "buy": False, "price": None, "vol": 2, "ttl": None},
+        {"op": "add", "agent": 1, "buy": True, "price": None, "vol": 2, "ttl": None},
+        {"op": "add", "agent": 2, "buy": True, "price": 100.0, "vol": 1, "ttl": None},
+        {"op": "add", "agent": 3, "buy": False, "price": 100.0, "vol": 1, "ttl": None},
+        {"op": "cancel", "ref": -1},
+        {"op": "tick", "fund": 100.0},
+    ]
+    cfg = {"tick": 1.0, "price": 100.0, "fund0": 100.0, "profile": "exhaustive-market"}
+    for seq in itertools.product(alphabet, repeat=length):
+        ops = [{"op": "run", "on": True}]
+        n = 0
+        for x in seq:
+            x = dict(x)
+            if x["op"] == "cancel":
+                if n == 0:
+                    break
+                x["ref"] = n - 1
+            ops.append(x)
+            if x["op"] == "add":
+                n += 1
+            if x["op"] != "tick":
+                ops.append({"op": "exec"})
+        else:
+            yield cfg, ops
 
 
 def small_scope_histories(max_len):
